@@ -1223,6 +1223,31 @@ def run(ctx, rep):
                 if got != want:
                     rep.violation("misparse:coloured", f"coloured grep line is not read back: {line!r} -> {got}",
                                   dict(kind="line", op="grep.parse_raw", caller="git grep -n foo", line=line, want=want, got=got))
+    # ---- 1a. the parse dispatch of handle_grep_line on text lines without escape sequences (GrepInput.lineOfInput, T23):
+    #          a line beginning with `{` goes to the JSON reader only, every other line to the plain regexes in order
+    if have_model:
+        dl = [c[0] for c in cases if ESC not in c[0] and c[2] in ("plain", "mutated", "random")][:ctx.n(250, 5000)]
+        for r in recs[:ctx.n(80, 2000)]:
+            kind, path, digits, code = r
+            if ESC not in path + code:
+                dl.append(fmt_plain(kind, "{" + path, digits, code))
+                dl.append(fmt_plain(kind, "{{cookiecutter.slug}}/" + path, digits, code))
+        dl = [l for l in dl if "\n" not in l and not is_json_text(l)]
+        di = ctx.hook(extra_env={"DELTA_VERIF_HOOK_CALLER": "git grep -n foo"}).ask([f"grep.parse {hx(l)}" for l in dl])
+        dm = mdl.ask([f"grep.line_of_text 4 {hx(l)}" for l in dl])
+        for l, i, m in zip(dl, di, dm):
+            got = parse_resp(i)
+            f = m.split(" ")
+            if f[0] == "H" and len(f) == 5:
+                want = dict(kind=f[1], path=unhxs(f[2]), num=None if f[3] == "-" else int(f[3]), code=unhxs(f[4]))
+            elif f[0] == "O":
+                want = None
+            else:
+                want = "?" + m
+            g = None if got is None else dict(kind=got["kind"], path=got["path"], num=got["num"], code=got["code"])
+            rep.count("dispatch:" + ("brace" if l.startswith("{") else "other") + (":hit" if g else ":not-grep"))
+            rep.corr_case("line_of_text", g == want, dict(line=l, impl=i, model=m))
+
     # ---- 1b. the documented fragment of plain-text lines, systematically: every extension length 1..10 (and 11,
     #          just outside) x with / without line number x match / context / function-header separator, over
     #          paths with dashes, '=', dots, digits and blanks in directories and names. Inside a fragment the
@@ -1479,6 +1504,15 @@ def line_truncated(st, k):
     return limit > 0 and len(st["lines"][k].encode("utf-8", "surrogateescape")) > limit
 
 
+def is_json_text(line):
+    """the line is JSON text (the model takes such lines as values: `Input.json`)"""
+    try:
+        json.loads(line)
+        return True
+    except Exception:
+        return False
+
+
 def run_streams(ctx, rep, streams, mdl):
     # model-side parse of every line (full model pipeline: parse, then emit)
     fields_per_stream = []
@@ -1647,6 +1681,53 @@ def run_streams(ctx, rep, streams, mdl):
             want = merged([(t[0], unhx(t[1:]).decode("utf-8", "replace")) for t in f[1:]])
             got = merged([(letter.get(fg, "?" + str(fg)), t) for fg, t in segments(ol)])
             rep.corr_case("row_layout", want == got, dict(kind="stream", args=args, guess=streams[si]["guess"], stdin_b64=b64(data), row=ol, model=want, impl=got))
+    # the visible text of every row (T23): ripgrep-style hit rows, path headers and the classic function-context header are
+    # written by the hunk-header helper; the model interprets the arguments grep.rs passes at each call site
+    # (Generated/GrepHelperCalls.lean -> GrepHelper.helperText), classic hit rows go through GrepRow.classicRow
+    txt_reqs, txt_idx = [], []
+    TEXT_VARIANTS_RG = ("base", "navigate", "hyperlinks", "hunk-header-style=raw", "hunk-header-style=omit",
+                        "hunk-header-style=file+line-number+syntax,box", "hunk-header-style=syntax,ul/ol")
+    for (si, style, tabw), ei in zip(jobs, emit_idx):
+        st = streams[si]
+        eff = style if style != "default" else ("ripgrep" if st["flavour"] == "json" else "classic")
+        vname = st.get("variant", "base")
+        if (ei is None or mdl is None or st.get("mll") not in (None, 0)
+                or (eff == "ripgrep" and vname not in TEXT_VARIANTS_RG) or (eff == "classic" and vname not in ("base", "navigate"))):
+            txt_idx.append(None)
+            continue
+        words = st["guess"].split(" ")
+        caller = "GitGrep" if words[:2] == ["git", "grep"] else ("OtherGrep" if words[0] in ("rg", "grep", "ag", "ack") else "None")
+        opts = [w for w in words if w.startswith("-")]
+        label = "\u2022" if vname == "navigate" else ""
+        txt_reqs.append("grep.rows_text %s 0 1 1 %d %s %s %d %s%s %d %d %s" % (
+            hx(label), 1 if vname == "navigate" else 0, hx(BASE_OPTS["--grep-separator-symbol"]), caller, len(opts),
+            "".join(hx(o) + " " for o in opts), "-" if style == "default" else style, tabw, len(st["lines"]), " ".join(fields_per_stream[si])))
+        txt_idx.append(len(txt_reqs) - 1)
+    txt_ans = mdl.ask(txt_reqs) if (mdl is not None and txt_reqs) else []
+    for (si, style, tabw), (rc, out, err, args, data), ti in zip(jobs, results, txt_idx):
+        if ti is None or rc != 0:
+            continue
+        m = txt_ans[ti]
+        if not m.startswith("ok"):
+            rep.corr_case("rows_text", False, dict(kind="stream", args=args, stdin_b64=b64(data), model=m[:600], why="model does not answer"))
+            continue
+        # (a line passed through keeps its escape sequences; the comparison is on the visible text)
+        want = [CSI.sub("", OSC8.sub("", unhx(t).decode("utf-8", "replace"))) for t in m.split(" | ")[1:] if t != "-"]
+        got = []
+        olines = out.split("\n")
+        if olines and olines[-1] == "":
+            olines.pop()
+        for ol in olines:
+            segs = segments(OSC8.sub("", ol))
+            if segs and any(f == PAL["deco"] for f, _ in segs):
+                if all(f == PAL["deco"] or not t.strip() for f, t in segs) and all(c in BOX_CHARS for _, t in segs for c in t):
+                    continue
+                segs = [(f, t) for f, t in segs if f != PAL["deco"]]
+            got.append("".join(t for _, t in segs))
+        eff = style if style != "default" else ("ripgrep" if streams[si]["flavour"] == "json" else "classic")
+        rep.count("rows_text:%s:%s" % (eff, streams[si].get("variant", "base")))
+        rep.corr_case("rows_text", want == got, dict(kind="stream", args=args, guess=streams[si]["guess"], stdin_b64=b64(data), style=eff,
+                                                     model=want[:40], impl=got[:40]))
     for (si, style, tabw), (rc, out, err, args, data), ei in zip(jobs, results, emit_idx):
         st = streams[si]
         eff_style = style if style != "default" else ("ripgrep" if st["flavour"] == "json" else "classic")
